@@ -581,26 +581,37 @@ def stmtImpl (s : State) (st : Stmt) : State × Result :=
     ({ s with tables := publish s.tables outs, marks := markAll s.marks outs },
      .ok ((outs.filter fun o => !o.isNew).map fun o => (o.name, o.count)))
 
-/-- where a cancellation (`ctx.Err() != nil`) is noticed -/
+/-- where a cancellation (`ctx.Err() != nil`) is noticed.  Every context check of every DML function
+    precedes the publication of its results: LoadView / Where / Evaluate / EvaluateSequentially / the
+    GoroutineTaskManager loops run inside the body, and Delete checks once more between collecting the
+    internal ids and its publication loop (query.go, "No table is stored after a cancellation"); the
+    publication loops themselves (Insert, Update, Replace, Delete, ALTER) contain no check. -/
 inductive CancelPoint
-  /-- at one of the context checks before anything is published (loading, filtering, evaluating) -/
+  /-- at one of the context checks while loading, filtering, evaluating -/
   | inBody
-  /-- in the publication loop, after `k` tables were stored: only Delete's loop checks the context there
-      (query.go:674-677, `for k, v := range viewsToDelete { if ctx.Err() != nil { return … } … Set(v) }`) -/
-  | inPublish (k : Nat)
+  /-- Delete's check after the body was computed, before the first table is stored -/
+  | beforePublish
 
 /-- a statement during which the context is cancelled -/
 def stmtCancel (s : State) (st : Stmt) : CancelPoint → State × Result
   | .inBody => (s, .error .canceled)
-  | .inPublish k =>
-    match st with
-    | .deleteMulti _ _ _ =>
-      match body s.tables st with
-      | .error e => (s, .error e)
-      | .ok outs =>
-        if k < outs.length then ({ s with tables := publish s.tables (outs.take k) }, .error .canceled)
-        else stmtImpl s st
-    | _ => stmtImpl s st
+  | .beforePublish =>
+    match body s.tables st with
+    | .error e => (s, .error e)
+    | .ok _ => (s, .error .canceled)
+
+/-- the publication loop of Delete BEFORE the repair 2dda37b: it checked the context before storing each
+    table, so a cancellation noticed after `k` tables were stored returned an error with those tables replaced.
+    Kept as a fact about the old code (Props/C08: `old_publication_loop_…`). -/
+def stmtCancelOldLoop (s : State) (st : Stmt) (k : Nat) : State × Result :=
+  match st with
+  | .deleteMulti _ _ _ =>
+    match body s.tables st with
+    | .error e => (s, .error e)
+    | .ok outs =>
+      if k < outs.length then ({ s with tables := publish s.tables (outs.take k) }, .error .canceled)
+      else stmtImpl s st
+  | _ => stmtImpl s st
 
 /-- COMMIT: every marked table is written (file) / gets a restore point (temporary table) -/
 def commitTables (tables committed : Tables) : List String → Tables
